@@ -162,6 +162,12 @@ def exec_op(op, c1, c2, cnt):
             scan(r, nonfinite)
         elif name == "epa_full":
             _GJK_INFO["ys"] = set()
+            if op.get("poison") is not None:
+                # make UNINITIALISED memory observable and deterministic: gjk_distance_jolt takes its (4, 3) work arrays from
+                # np.empty, i.e. from numpy's cache of freed small blocks; blocks of that size filled with the poison value are
+                # freed right before the call, so rows GJK never writes hold the poison instead of whatever the heap held
+                blocks = [np.full((4, 3), float(op["poison"])) for _ in range(16)]
+                del blocks
             d, a, b, simplex = gjk.gjk_distance_jolt(c1, c2)
             out.update(d=float(d), n_gjk=cnt.n, n_points=_GJK_INFO.get("n_points"))
             if simplex is not None:
